@@ -173,6 +173,68 @@ theorem visible_strict_inside_piece (Q : Vec4 K → Prop) (hQ : ClipInv Q) (L R 
     q hq hoff x y hxy
   exact ⟨tri, htri, hin⟩
 
+/-- **`inside_piece_visible`** (detailed form, any viewport scale). A pixel whose centre is inside the
+projection of a clipped piece `tri` of `t` (positive `w` at the piece's vertices) is the projection of a VISIBLE
+point `q` of `t`, with positive `w`, and the ideal fragment of the piece at the pixel is `visFrag t q x y`:
+reciprocal depth `1/w(q)` and the attributes of `t` at `q` — it depends on the input triangle and the point
+only, not on the piece. -/
+theorem inside_piece_visible_frag (dx dy cx cy : K) (t : Tri K) (hwf : TriWF t)
+    (hlen : t.a.attr.length = t.b.attr.length ∧ t.b.attr.length = t.c.attr.length)
+    (tri : Tri K) (htri : tri ∈ clipTri t)
+    (hwa : 0 < tri.a.pos.w) (hwb : 0 < tri.b.pos.w) (hwc : 0 < tri.c.pos.w) (x y : Nat)
+    (hin : InsideTri (vpMat dx dy cx cy) tri x y) :
+    ∃ q : Pt K, Visible t q ∧ 0 < (baryPos t q).w ∧ centre x y = proj dx dy cx cy (baryPos t q) ∧
+      pixFrag (vpMat dx dy cx cy) tri x y = visFrag t q x y := by
+  obtain ⟨g0, g1, g2, d, k0, k1, k2, ksum, hd, hw, hform, hX, hY⟩ :=
+    pixFrag_persp dx dy cx cy tri x y hwa hwb hwc hin
+  obtain ⟨s, hrep, hv⟩ := Retro.Props.C03.clip_output_subset_visible t hwf hlen tri htri
+  have hpos : baryPos t (comb2 g0 g1 g2 s.a s.b s.c) = comb4 g0 g1 g2 tri.a.pos tri.b.pos tri.c.pos := by
+    rw [Retro.Props.C03.baryPos_comb2 t g0 g1 g2 _ _ _ ksum, ← hrep.1.2.1, ← hrep.2.1.2.1, ← hrep.2.2.2.1]
+  have hWd : g0 * tri.a.pos.w + g1 * tri.b.pos.w + g2 * tri.c.pos.w = 1 / d :=
+    eq_div_of_mul_eq hd.ne' (by linarith)
+  have hPw : (baryPos t (comb2 g0 g1 g2 s.a s.b s.c)).w = 1 / d := by rw [hpos]; exact hWd
+  have hPx : (baryPos t (comb2 g0 g1 g2 s.a s.b s.c)).x
+      = g0 * tri.a.pos.x + g1 * tri.b.pos.x + g2 * tri.c.pos.x := by rw [hpos]; rfl
+  have hPy : (baryPos t (comb2 g0 g1 g2 s.a s.b s.c)).y
+      = g0 * tri.a.pos.y + g1 * tri.b.pos.y + g2 * tri.c.pos.y := by rw [hpos]; rfl
+  refine ⟨comb2 g0 g1 g2 s.a s.b s.c, hv g0 g1 g2 k0 k1 k2 ksum, ?_, ?_, ?_⟩
+  · rw [hPw]; positivity
+  · unfold centre proj
+    rw [hPw, hPx, hPy, hX, hY, div_div_eq_mul_div, div_one, div_div_eq_mul_div, div_one]
+  · rw [hform]
+    unfold visFrag
+    rw [hPw, one_div_one_div, baryAttr_comb2 t g0 g1 g2 _ _ _ ksum, ← hrep.1.2.2, ← hrep.2.1.2.2,
+      ← hrep.2.2.2.2]
+
+/-- **`inside_piece_visible`.** Through the library's viewport matrix: a pixel inside the projection of a
+clipped piece of `t` is the projection of a visible point of `t`. -/
+theorem inside_piece_visible (L R T B : Nat) (t : Tri K) (hwf : TriWF t)
+    (hlen : t.a.attr.length = t.b.attr.length ∧ t.b.attr.length = t.c.attr.length)
+    (tri : Tri K) (htri : tri ∈ clipTri t)
+    (hwa : 0 < tri.a.pos.w) (hwb : 0 < tri.b.pos.w) (hwc : 0 < tri.c.pos.w) (x y : Nat)
+    (hin : InsideTri (viewportMat L R T B) tri x y) :
+    ∃ q : Pt K, Visible t q ∧ centre x y = projV L R T B (baryPos t q) := by
+  obtain ⟨q, hv, -, hc, -⟩ := inside_piece_visible_frag _ _ _ _ t hwf hlen tri htri hwa hwb hwc x y hin
+  exact ⟨q, hv, hc⟩
+
+/-- The covering piece of `visible_covered` shows exactly `visFrag t q x y` at the pixel. -/
+theorem visible_covered_frag (dx dy cx cy : K) (hdd : dx * dy ≠ 0) (Q : Vec4 K → Prop) (hQ : ClipInv Q)
+    (t : Tri K) (hwf : TriWF t) (hQt : Q t.a.pos ∧ Q t.b.pos ∧ Q t.c.pos)
+    (hlen : t.a.attr.length = t.b.attr.length ∧ t.b.attr.length = t.c.attr.length)
+    (hnd : ∃ q0 : Pt K, InOpenSimplex q0 ∧ ∀ p ∈ (planes : List (Plane K)), baryD p t q0 < 0)
+    (hdet : triDet t ≠ 0) (q : Pt K) (hq : Visible t q) (hoff : OffEdges t q) (x y : Nat)
+    (hxy : centre x y = proj dx dy cx cy (baryPos t q)) :
+    ∃ tri ∈ clipTri t, ∃ s : Tri2 K, TriRep t s tri ∧ StrictIn q s ∧ 0 < (baryPos t q).w ∧
+      InsideTri (vpMat dx dy cx cy) tri x y ∧ pixFrag (vpMat dx dy cx cy) tri x y = visFrag t q x y := by
+  obtain ⟨tri, htri, s, hrep, hst, hwq, hin⟩ := visible_covered dx dy cx cy hdd Q hQ t hwf hQt hlen hnd hdet
+    q hq hoff x y hxy
+  obtain ⟨wa, wb, wc⟩ := piece_wpos Q hQ t hwf hQt tri htri
+  obtain ⟨q', -, hwq', hc', hf⟩ := inside_piece_visible_frag dx dy cx cy t hwf hlen tri htri wa wb wc x y hin
+  have e : q = q' := proj_bary_inj dx dy cx cy (left_ne_zero_of_mul hdd) (right_ne_zero_of_mul hdd) t hdet q q'
+    hwq.ne' hwq'.ne' (by rw [← hxy, hc'])
+  subst e
+  exact ⟨tri, htri, s, hrep, hst, hwq, hin, hf⟩
+
 end Screen
 
 end Retro.Props.C01
